@@ -782,6 +782,8 @@ class Engine:
             lr = z3.ToReal(l) if is_sym(l) and z3.is_int(l) else l
             rr = z3.ToReal(r) if is_sym(r) and z3.is_int(r) else r
             if not is_sym(lr) and not is_sym(rr):
+                if isinstance(lr, int) and isinstance(rr, int) and not isinstance(lr, bool) and lr % rr != 0:
+                    return z3.Q(lr, rr)      # floats are modelled as reals: 4 / 3 is the rational 4/3
                 return lr / rr
             if not is_sym(lr):
                 lr = z3.RealVal(lr)
